@@ -70,10 +70,19 @@ fn strings(max_len: usize) -> Vec<String> {
 }
 
 pub fn numbers() -> Vec<Value> {
-    vec![
+    let mut v = vec![
         json!(0), json!(-1), json!(1.5), json!(1e300), json!(5e-324), json!(u64::MAX), json!(i64::MIN),
         json!(-0.0), json!(0.1), json!(1e-7), json!(123456789012345678u64), json!(1.0),
-    ]
+        json!(0.1 + 0.2), json!(123456789.123456789), json!(1e23), json!(8.41e21), json!(2.2250738585072014e-308),
+        json!(1.7976931348623157e308), json!(std::f64::consts::PI), json!(1.0 / 3.0), json!(2.0 / 3.0),
+        json!(4.35), json!(9007199254740993i64), json!(0.000001), json!(1e21), json!(1e-5),
+    ];
+    // a finite family of "ordinary" fractions with many significant digits: 1e8 + n/997 and n/997
+    for n in 1..=400u32 {
+        v.push(json!(1e8 + (n as f64) / 997.0));
+        v.push(json!((n as f64) / 997.0));
+    }
+    v
 }
 
 fn content_docs(s: &str) -> Vec<(&'static str, Value)> {
